@@ -121,9 +121,9 @@ func genC06(t *rapid.T) ModelCase {
 
 func hooksFor(c ModelCase) *diffHooks {
 	if len(c.ClearTerminateAt) == 0 {
-		return nil
+		return &diffHooks{useDb: c.UseDb}
 	}
-	return &diffHooks{beforeRequest: func(i int, real *app.Session, m *model.Session) {
+	return &diffHooks{useDb: c.UseDb, beforeRequest: func(i int, real *app.Session, m *model.Session) {
 		for _, at := range c.ClearTerminateAt {
 			if at == i && m.Terminated() {
 				clearTerminate(real, m)
